@@ -567,21 +567,52 @@ def r6_reversed_table(ctx, chk, rule="C07.6"):
     where = f.where()
     ret = sx.ret
     fn_of = lambda name: ctx.prog.funcs.get("reverse_dfs.py::" + name, f)
-    if ret[0] != "res":
-        chk.undecided(rule, where, "reverse_transition_list does not return the result of the completion loop: %s" % show(ret))
-        return
-    # ---- (1) completion: every state gets an entry ------------------------------------------------------------
-    Lm = sx.loops[ret[1]]
-    v = ret[2]
-    acc, e = ("acc", Lm.id, v), ("elem", Lm.id)
-    up = Lm.update[v]
     n_states = ("call", "len", (tl,), ())
     full_range = (("call", "range", (n_states,), ()), ("call", "range", (C(0), n_states), ()))
+    # ---- (1) completion: every state gets an entry ------------------------------------------------------------
+    # form C: `for s in range(...): d.setdefault(s, [])` - the dict is completed in place and returned as it is
+    formC = None
+    for Lc_ in sx.loops.values():
+        if Lc_.kind == "for" and Lc_.source[0] == "call" and Lc_.source[1] == "range":
+            sd = [x for x in Lc_.effects if x[1] == "call" and x[2][0] == "mcall" and x[2][2] == "setdefault" and x[2][3] == (("elem", Lc_.id), ("list", ()))]
+            if sd and sd[0][2][1] == ret:
+                formC = (Lc_, sd[0])
+    if formC is not None:
+        Lm, sd = formC
+        cw = fn_of("add_missing_states").where(Lm.node)
+        if Lm.has_break or Lm.has_return or Lm.cont != FALSE or sd[0] != TRUE:
+            chk.violation(rule, cw, "the completion loop does not reach every state (early exit / conditional)", expected="every state", found=show(sd[0]), construct="add_missing_states early exit")
+            return
+        if Lm.source not in full_range:
+            chk.violation(rule, cw, "the completion loop covers `%s`, not range(len(transition_list)): some state has no entry in the reversed table "
+                          "(a state without predecessors numbered above every successor makes the search raise KeyError)" % show(Lm.source),
+                          expected="range(len(%s))" % f.params[0], found=show(Lm.source), construct="add_missing_states range")
+            return
+        chk.ok(rule, cw, "completion: table.setdefault(s, []) for every s in range(len(%s)) (every state has an entry)" % f.params[0])
+        base_dict = ret
+        v = None
+    if formC is None and ret[0] != "res":
+        chk.undecided(rule, where, "reverse_transition_list does not return the result of the completion loop: %s" % show(ret))
+        return
+    if formC is None:
+        Lm = sx.loops[ret[1]]
+        v = ret[2]
+    if formC is None:
+        _ok = _completion_AB(ctx, chk, rule, sx, Lm, v, full_range, f, fn_of)
+        if _ok is None:
+            return
+        base_dict = _ok
+    _grouping_and_pairs(ctx, chk, rule, sx, base_dict, tl, f, fn_of, where)
+
+
+def _completion_AB(ctx, chk, rule, sx, Lm, v, full_range, f, fn_of):
+    acc, e = ("acc", Lm.id, v), ("elem", Lm.id)
+    up = Lm.update[v]
     base_dict = Lm.init[v]
     cw = fn_of("add_missing_states").where(Lm.node)
     if Lm.has_break or Lm.has_return or Lm.cont != FALSE:
         chk.violation(rule, cw, "the completion loop exits early: some state has no entry in the reversed table", expected="every state", found="early exit", construct="add_missing_states early exit")
-        return
+        return None
     formA = Lm.source in full_range and up == simp(("ite", simp(("cmp", "notin", e, acc)), ("setitem", acc, e, ("list", ())), acc))
     formB = False
     rng = Lm.source
@@ -597,8 +628,12 @@ def r6_reversed_table(ctx, chk, rule="C07.6"):
                           expected="range(len(%s))" % f.params[0], found=show(rng), construct="add_missing_states range")
         else:
             chk.undecided(rule, cw, "completion not in the form `for s in range(n): if s not in d: d[s] = []`: source %s, update %s" % (show(Lm.source), show(up)))
-        return
+        return None
     chk.ok(rule, cw, "completion: every s in range(len(%s)) without an entry gets `table[s] = []` (every state has an entry)" % f.params[0])
+    return base_dict
+
+
+def _grouping_and_pairs(ctx, chk, rule, sx, base_dict, tl, f, fn_of, where):
     # ---- (2) grouping: one append per pair, multiplicity kept -------------------------------------------------------
     gw_f = fn_of("list_of_tuples_to_dict_of_lists")
     pairs_t = None
